@@ -43,6 +43,8 @@ type B struct {
 	curCase      int
 	start        time.Time
 	cutShort     bool
+	// Boost multiplies the quick-tier counts of checks whose cases are very cheap.
+	Boost int
 }
 
 // NewB creates a collector.
@@ -66,6 +68,9 @@ var ThoroughScale = 12
 // N picks the case count for the tier.
 func (b *B) N(quick, thorough int) int {
 	q := quick * QuickScale
+	if b.Boost > 1 {
+		q *= b.Boost
+	}
 	if b.Thorough() {
 		t := q * ThoroughScale
 		if thorough > t {
